@@ -253,6 +253,13 @@ pub fn check_interface(
 }
 
 pub fn run(ctx: &mut Ctx) {
+    crate::witness::for_each(ctx, |ctx, case, script, lib, built| {
+        let input = json!({"witness": script.name, "library": witgen::library_text(lib), "ops": compose::ops_json(&built.ops)});
+        if let Outcome::Ok(bytes) = encode_outcome(&built.graph, true, false) {
+            ctx.eval();
+            check_interface(ctx, case, lib, &built.graph, &built.exported, &bytes, &input);
+        }
+    });
     let total = ctx.n(15_000, 1_500_000);
     for case in ctx.cases(total) {
         if ctx.out_of_budget() {
